@@ -691,7 +691,7 @@ func rulePeekCountsOnly(c *Ctx, rule string) {
 	for _, fn := range withClosures(hc) {
 		for _, ci := range allCalls(fn) {
 			cc := ci.Common()
-			if !cc.IsInvoke() || cc.Method.Name() != "Peek" {
+			if ifaceMethodCalled(cc) != "Peek" {
 				continue
 			}
 			call, ok := ci.(*ssa.Call)
